@@ -10,6 +10,7 @@
 from amoco.arch.eBPF import env
 
 from amoco.arch.core import *
+from copy import copy as _copy  # operands get their own sign flag: shared register objects are copied
 
 # -------------------------------------------------------
 # instruction BPF decoders
@@ -34,7 +35,7 @@ ISPECS = []
 @ispec("64>[ 001 s 0101 {00} jt(8) jf(8) ~k(32) ]", mnemonic="xor")
 def bpf_alu_(obj, s, jt, jf, k):
     dst = env.A
-    src = env.cst(k.int(-1), 32) if s == 0 else env.X
+    src = env.cst(k.int(-1), 32) if s == 0 else _copy(env.X)
     src.sf = True
     if obj.mnemonic in ("or", "and", "xor", "neg"):
         src.sf = False
